@@ -78,7 +78,13 @@ def rel_close(a, b, scale):
     return abs(a - b) <= TOL * scale + 1e-300
 
 
-def oracle(ctx, job, res, has_thermo):
+def disjoint_ranges(job, ranges):
+    rs = [ranges.get(n) for n, _ in job['mapping'] if ranges.get(n)]
+    return bool(rs) and max(r[0] for r in rs) > min(r[1] for r in rs)
+
+
+def oracle(ctx, job, res, has_thermo, ranges=None):
+    ranges = ranges or {}
     """the property, checked directly on the implementation's own values"""
     mp = job['mapping']
     key = 'est:%s|%s' % (os.path.basename(os.path.dirname(job['lib'])) or job['lib'],
@@ -89,6 +95,8 @@ def oracle(ctx, job, res, has_thermo):
             if not expected_missing or res.get('groups') != expected_missing:
                 ctx.violate(key, 'GroupMissingDataError does not name exactly the descriptors without data',
                             job, expected_missing, res)
+        elif res['exc'] == 'AssertionError' and not expected_missing and disjoint_ranges(job, ranges):
+            pass        # no common valid range: the estimate cannot be built (C06 model: est_range = Raise AssertErr)
         else:
             ctx.violate('estimate-raises:%s%s' % (res['exc'], '' if job.get('predecomp') else ':no-prior-decomposition'),
                         'Estimate raised %s for a mapping whose descriptors all have data' % res['exc']
@@ -205,11 +213,13 @@ def run(ctx):
     infos = vlib.run_impl_sharded('thermo', [{'op': 'libinfo', 'lib': s} for s in specs], timeout=900)
     jobs = []
     has = {}
+    rngs = {}
     for spec, info in zip(specs, infos):
         if 'job_exc' in info or '_child_failed' in info:
             ctx.violate('load:' + spec, 'library failed to load', spec, 'loads', info)
             continue
         has[spec] = {g['name']: g['has'] for g in info['groups']}
+        rngs[spec] = {g['name']: g.get('range') for g in info['groups']}
         jobs += make_jobs(ctx, spec, info, ctx.n(25, 300) if spec in libs else ctx.n(15, 60))
     # keep the jobs of one library in one child (library load is the cost)
     jobs.sort(key=lambda j: j['lib'])
@@ -222,7 +232,7 @@ def run(ctx):
             ctx.broken.append('implementation child failed: %s' % (res.get('msg') or res.get('_child_failed')))
             continue
         ctx.count((job['lib'], tuple(map(tuple, job['mapping']))), nontrivial=len(job['mapping']) > 1 or job['kind'] == 'unit')
-        oracle(ctx, job, res, has[job['lib']])
+        oracle(ctx, job, res, has[job['lib']], rngs[job['lib']])
         if job['kind'] != 'unit' or ctx.rng.random() < 0.1:
             libview = [(n, has[job['lib']].get(n, False)) for n, _ in job['mapping']]
             if len(misses) < ctx.n(300, 3000) and ('exc' not in res or res['exc'] == 'GroupMissingDataError'):
@@ -290,5 +300,5 @@ def replay(ctx, rec):
     r, info = res['results']
     has = {g['name']: g['has'] for g in info['groups']}
     n0 = len(ctx.violations)
-    oracle(ctx, case, r, has)
+    oracle(ctx, case, r, has, {g['name']: g.get('range') for g in info['groups']})
     return len(ctx.violations) == n0
